@@ -24,10 +24,38 @@ func workDir() string {
 }
 
 func TestC01Random(t *testing.T) {
+	runPart(t, "random", func(rt *rapid.T) *Scenario { return genScenario(rt) }, func(st *stats) bool { return st.nontrivial() })
+}
+
+var (
+	maxFill  = flag.Int("c01.maxfill", 1500, "largest bulk state (leaves) of a generated target in the break part")
+	maxStorm = flag.Int("c01.maxstorm", 4, "most observers attaching around one stream break")
+)
+
+// TestC01Slow: observers that stop reading for a while, so that the collector has to coalesce
+// what the target sends again and again meanwhile (atomic containers, groups, large leaves).
+// Non-trivial additionally demands that a blocked observer demonstrably received a coalesced delivery.
+func TestC01Slow(t *testing.T) {
+	runPart(t, "slow", func(rt *rapid.T) *Scenario {
+		return genFlowScenario(rt, flowParams{profile: "slow", maxFill: *maxFill, maxStorm: *maxStorm})
+	}, func(st *stats) bool { return st.nontrivial() && st.coalescedAtPaused })
+}
+
+// TestC01Break: the target's stream breaks (status, transport, forced by RPC), the target comes
+// back with its current state - possibly without some earlier leaves - and observers attach
+// around that instant. Non-trivial additionally demands that the collector did subscribe again
+// and that an observer attached mid-script.
+func TestC01Break(t *testing.T) {
+	runPart(t, "break", func(rt *rapid.T) *Scenario {
+		return genFlowScenario(rt, flowParams{profile: "break", maxFill: *maxFill, maxStorm: *maxStorm})
+	}, func(st *stats) bool { return st.nontrivial() && st.reconnected && st.lateObserver })
+}
+
+func runPart(t *testing.T, part string, gen func(*rapid.T) *Scenario, nontrivial func(*stats) bool) {
 	if !vstat.Enabled("C01") {
 		t.Skip()
 	}
-	rec := vstat.New("C01", "random")
+	rec := vstat.New("C01", part)
 	if _, err := getEnv(workDir()); err != nil {
 		rec.Note("INFRA: %v", err)
 		rec.Flush(false)
@@ -35,19 +63,25 @@ func TestC01Random(t *testing.T) {
 	}
 	inconclusiveN := 0
 	rec.RunRapid(t, func(rt *rapid.T) {
-		sc := genScenario(rt)
+		sc := gen(rt)
+		if inconclusiveN > 5 {
+			// the machine cannot run this engine now: the part ends short of its budget (exit 2), not with a verdict
+			return
+		}
 		rec.Current(sc)
 		st, err := run(workDir(), sc)
 		if inc, ok := err.(*inconclusive); ok {
-			// infrastructure trouble (ports, process start): never a violation
+			// infrastructure trouble (ports, process start, a wall-clock bound): never a violation
 			inconclusiveN++
+			rec.Label("inconclusive-case-skipped")
 			rec.NoteOnce("inconclusive case skipped: %s", inc.msg)
 			if inconclusiveN > 5 {
-				rt.Fatalf("too many inconclusive cases: %s", inc.msg)
+				rec.Note("more than 5 inconclusive cases: no further case is run")
+				return
 			}
 			rt.Skip("inconclusive")
 		}
-		rec.Case(sc, st.nontrivial(), st.labels()...)
+		rec.Case(sc, nontrivial(st), st.labels()...)
 		if err != nil {
 			class := "oracle"
 			if v, ok := err.(*violation); ok {
